@@ -438,7 +438,14 @@ func shortVal(v ssa.Value) string {
 	case *ssa.Parameter:
 		return x.Name()
 	case *ssa.Const:
-		return x.Name()
+		if x.Value == nil {
+			return "nil"
+		}
+		s := x.Value.ExactString()
+		if len(s) > 24 {
+			s = s[:24]
+		}
+		return s
 	case *ssa.Phi:
 		if x.Comment != "" {
 			return x.Comment
